@@ -48,6 +48,8 @@ def build_repo(path, script):
         elif op == "merge":
             git(path, "merge", "-q", "--no-ff", "-m", "merge " + st[1], st[1], ts=st[2])
             commits.append(git(path, "rev-parse", "HEAD"))
+        elif op == "branchat":                   # a branch created without checking it out (e.g. named like an existing tag)
+            git(path, "branch", st[1])
         elif op == "detach":
             git(path, "checkout", "-q", "--detach", "HEAD")
         elif op == "dirty":
@@ -55,6 +57,19 @@ def build_repo(path, script):
                 open(os.path.join(path, "untracked.txt"), "w").write("u")
             elif st[1] == "modified":
                 open(os.path.join(path, "f1.txt"), "a").write("m")
+            elif st[1] == "index_only_mod":        # the index differs from HEAD while the work tree equals HEAD again (status MM)
+                orig = open(os.path.join(path, "f1.txt")).read()
+                open(os.path.join(path, "f1.txt"), "w").write(orig + "x")
+                git(path, "add", "f1.txt")
+                open(os.path.join(path, "f1.txt"), "w").write(orig)
+            elif st[1] == "index_only_add":        # a new file added to the index and deleted from the work tree (status AD)
+                open(os.path.join(path, "gone.txt"), "w").write("g")
+                git(path, "add", "gone.txt")
+                os.remove(os.path.join(path, "gone.txt"))
+            elif st[1] == "deleted":               # a tracked file removed from the work tree only
+                os.remove(os.path.join(path, "f1.txt"))
+            elif st[1] == "staged_delete":         # git rm --cached: staged deletion, file still there (then untracked)
+                git(path, "rm", "-q", "--cached", "f1.txt")
             else:
                 open(os.path.join(path, "staged.txt"), "w").write("s")
                 git(path, "add", "staged.txt")
